@@ -525,3 +525,32 @@ def _capture_float_impl(self):
 _capture_float = _capture_float_impl
 SymH.capture = _capture_sym
 FloatH.capture = _capture_float
+
+
+# ---- no division by zero / finite results
+def _finite_sym(self, name, f):
+    """run f(); every divisor it introduces must be nonzero under the assumptions and the path condition
+    (the blanket 'denominators are nonzero' assumption is NOT granted to these divisors)"""
+    n0 = len(CTX.dens)
+    out = f()
+    new = CTX.dens[n0:]
+    if new:
+        snap = (len(CTX.assumes), len(CTX.axioms), len(CTX.path), n0)
+        self._add(name, 0, "finite", z3.And([d != 0 for d in new]) if len(new) > 1 else (new[0] != 0))
+        self.obls[-1].snap = snap
+    else:
+        self._add(name, 0, "finite", True)
+    return out
+
+
+def _finite_float(self, name, f):
+    with np.errstate(all="ignore"):
+        out = f()
+    vals = out if isinstance(out, (tuple, list)) else (out,)
+    ok = all(bool(np.all(np.isfinite(np.asarray(v, dtype=float)))) for v in vals if v is not None)
+    self.res.append(_FRes(name, 0, ok, info=None if ok else "non-finite result"))
+    return out
+
+
+SymH.finite = _finite_sym
+FloatH.finite = _finite_float
